@@ -68,6 +68,20 @@ func H_C03_header() {
 	h.SetPID(p)
 	vCheck(uint32(h.GetPID()) == p && h.PIDHigh == uint16(p>>16) && h.PIDLow == uint16(p), "C03/header/SetPID-splits-high-and-low")
 	vCheck(h.IsResponse() == (raw[9]&0x80 != 0) && h.IsRequest() == !h.IsResponse(), "C03/header/reply-flag-is-bit-7-of-flags")
+	// the accessors read and write the fields they name, and nothing else: a header filled through them encodes like
+	// one filled through the fields
+	a := NewHeader()
+	a.Protocol, a.Command, a.Status, a.Reserved, a.SecurityFeatures = h.Protocol, h.Command, h.Status, h.Reserved, h.SecurityFeatures
+	a.SetFlags(uint8(h.Flags))
+	a.SetFlags2(uint16(h.Flags2))
+	a.SetTID(h.TID)
+	a.SetUID(h.UID)
+	a.SetMID(h.MID)
+	a.SetPID(p)
+	vCheck(a.GetTID() == h.TID && a.GetUID() == h.UID && a.GetMID() == h.MID && a.GetPID() == h.GetPID(), "C03/header/accessors-read-back")
+	viaSetters, err := a.Marshal()
+	direct, err2 := h.Marshal()
+	vCheck(err == nil && err2 == nil && vBytesEq(viaSetters, direct), "C03/header/fields-set-through-accessors-encode-the-same")
 	vCover("end")
 }
 
